@@ -10,6 +10,10 @@ macro_rules! cfg {
 }
 
 fn main() {
+    vengine::on_worker_stack(real_main);
+}
+
+fn real_main() {
     let mut run = Run::from_args("C14", "c14");
     vcore::core_configs!(cfg, &mut run);
     if run.tier == Tier::Quick {
